@@ -38,10 +38,14 @@ type countingFactory struct{ c *counting }
 
 func (f countingFactory) NewInterceptor(string) (interceptor.Interceptor, error) { return f.c, nil }
 
+type builtFactory struct{ i interceptor.Interceptor }
+
+func (f builtFactory) NewInterceptor(string) (interceptor.Interceptor, error) { return f.i, nil }
+
 var realKinds = []string{"nack-generator", "stats", "flexfec"}
 
-// lifecycleJob enumerates every chain of length 1..4 whose positions are counting members or one of
-// three real interceptors, every subset of the counting members returning a distinct Close error, built
+// lifecycleJob enumerates every chain of length 1..4 whose positions are counting members, (up to length 3)
+// nested chains of two counting members, or one of three real interceptors, every subset of the counting members returning a distinct Close error, built
 // directly and through Registry.Build.
 func lifecycleJob(r *hk.JobResult) {
 	type shape []int // per position: -1 counting, k>=0 real kind k
@@ -52,7 +56,10 @@ func lifecycleJob(r *hk.JobResult) {
 			shapes = append(shapes, append(shape(nil), cur...))
 			return
 		}
-		for v := -1; v < len(realKinds); v++ {
+		for v := -2; v < len(realKinds); v++ {
+			if v == -2 && n == 4 {
+				continue // nested chains in chains of up to three positions
+			}
 			gen(append(cur, v), n)
 		}
 	}
@@ -63,8 +70,11 @@ func lifecycleJob(r *hk.JobResult) {
 	for _, sh := range shapes {
 		nc := 0
 		for _, v := range sh {
-			if v < 0 {
+			if v == -1 {
 				nc++
+			}
+			if v == -2 {
+				nc += 2 // a nested chain of two counting members
 			}
 		}
 		for mask := 0; mask < 1<<nc; mask++ {
@@ -100,14 +110,39 @@ func lifecycleCase(sh []int, mask int, viaRegistry bool) string {
 	var counters []*counting
 	reg := &interceptor.Registry{}
 	ci := 0
-	for pos, v := range sh {
-		if v < 0 {
-			c := &counting{id: pos, log: &log}
-			if mask&(1<<ci) != 0 {
-				c.closeErr = fmt.Errorf("close error of member %d", pos)
+	newCounting := func(id int) *counting {
+		c := &counting{id: id, log: &log}
+		if mask&(1<<ci) != 0 {
+			c.closeErr = fmt.Errorf("close error of member %d", id)
+		}
+		ci++
+		counters = append(counters, c)
+		return c
+	}
+	for _, v := range sh {
+		if v == -2 {
+			// a chain inside the chain (what one Registry builds, added to another)
+			a := newCounting(len(counters))
+			b := newCounting(len(counters))
+			var inner interceptor.Interceptor
+			if viaRegistry {
+				ir := &interceptor.Registry{}
+				ir.Add(countingFactory{a})
+				ir.Add(countingFactory{b})
+				built, err := ir.Build("inner")
+				if err != nil {
+					return err.Error()
+				}
+				inner = built
+			} else {
+				inner = interceptor.NewChain([]interceptor.Interceptor{a, b})
 			}
-			ci++
-			counters = append(counters, c)
+			members = append(members, inner)
+			reg.Add(builtFactory{inner})
+			continue
+		}
+		if v < 0 {
+			c := newCounting(len(counters))
 			members = append(members, c)
 			reg.Add(countingFactory{c})
 			continue
